@@ -23,6 +23,37 @@ from .common import grid_json, param_json, prices_json, instant
 KINDS = {'simple_contract': 'SimpleContract', 'contract': 'Contract', 'multi': 'MultiCommodityContract',
          'transport': 'Transport', 'ext_transport': 'ExtendedTransport'}
 
+# registry entries for the property modules (module, theorem, reading)
+THEOREMS_C08 = [
+    ('EAO.Properties.C08', 'EAO.C08.built_wf', 'whatever one of the five contract/transport builders returns on an asset grid g is well formed: bound vectors as long as the cost vector, T or 2T variables, every mapping row has a variable index below n, the asset name, kind d, a step of g.idx and one of the asset nodes; every row is a U or L row with at least one coefficient and column indices below n'),
+    ('EAO.Properties.C08', 'EAO.C08.empty_window_inert', 'on a grid without steps (window outside the horizon, empty, reversed) every builder that succeeds returns no variable, no row and no mapping row'),
+    ('EAO.Properties.C08', 'EAO.C08.vars_only_in_window', 'every mapping row of a built problem sits at a step of the restricted grid'),
+    ('EAO.Properties.C08', 'EAO.C08.no_dispatch_outside_window', 'hence the dispatch read off any solution at a step outside the restricted grid is zero'),
+    ('EAO.Properties.C08', 'EAO.C08.take_outside_inert', 'a take period covering no step of the restricted grid yields no row'),
+    ('EAO.Properties.C08', 'EAO.C08.take_outside_inert_contract_min', 'a contract with such a period anywhere in its minimum takes is built exactly like the contract without it'),
+    ('EAO.Properties.C08', 'EAO.C08.take_outside_inert_contract_max', 'the same for maximum takes'),
+    ('EAO.Properties.C08', 'EAO.C08.take_outside_inert_transport_min', 'the same for minimum takes of an extended transport'),
+    ('EAO.Properties.C08', 'EAO.C08.take_outside_inert_transport_max', 'the same for maximum takes of an extended transport'),
+    ('EAO.Properties.C08', 'EAO.C08.coveredPos_nil_of_outside', 'a period [s,e) containing no point of the restricted grid covers no step'),
+    ('EAO.Properties.C08', 'EAO.C08.take_prorated', 'the right-hand side of a take row is V * (sum of dt over the covered steps) / ((e-s)/unit); its coefficients are the factors of the mapping rows at the covered steps'),
+    ('EAO.Properties.C08', 'EAO.C08.contract_rows_prorated', 'every row of a built contract is such a prorated row: U for a maximum take, L for a minimum take'),
+    ('EAO.Properties.C08', 'EAO.C08.ext_transport_rows_prorated', 'every row of an extended transport is a prorated row at the first node with negated volume: L for a maximum, U for a minimum take'),
+    ('EAO.Properties.C08', 'EAO.C08.multi_mapping', 'a multi-commodity contract is the contract with its mapping copied once per node, factors multiplied by the node factor; cost, bounds and rows untouched'),
+]
+THEOREMS_C12 = [
+    ('EAO.Properties.C12', 'EAO.C12.limits_follow_dt', 'bounds of a (simple) contract are rate_t * dt_t of the asset grid, in the two-variable form split into negative and positive part'),
+    ('EAO.Properties.C12', 'EAO.C12.limits_total', 'so lower/upper limits add up to sum_t rate_t * dt_t in both forms'),
+    ('EAO.Properties.C12', 'EAO.C12.limits_total_const', 'constant rates: total limit = rate * sum of dt (rate x elapsed time) for any step lengths'),
+    ('EAO.Properties.C12', 'EAO.C12.limits_total_const_contract', 'the same with take restrictions'),
+    ('EAO.Properties.C12', 'EAO.C12.limits_follow_dt_transport', 'transport bounds are capacity * dt_t; totals = capacity * elapsed time'),
+    ('EAO.Properties.C12', 'EAO.C12.limits_follow_dt_ext_transport', 'the same for the extended transport'),
+    ('EAO.Properties.C12', 'EAO.C12.unit_change', 'every dt multiplied by k > 0 and every (non-key) rate divided by k: buildSimpleContract returns the SAME problem'),
+    ('EAO.Properties.C12', 'EAO.C12.unit_change_contract', 'the same for Contract when the unit length in seconds is divided by k (take volumes unchanged)'),
+    ('EAO.Properties.C12', 'EAO.C12.unit_change_multi', 'the same for MultiCommodityContract'),
+    ('EAO.Properties.C12', 'EAO.C12.unit_change_transport', 'the same for Transport'),
+    ('EAO.Properties.C12', 'EAO.C12.unit_change_ext_transport', 'the same for ExtendedTransport'),
+]
+
 # model error class -> class of the exception the implementation raises
 ERR_MAP = {'nan': 'assert', 'assert': 'assert', 'ill-posed': 'value', 'length': 'value', 'overlap': 'value',
            'missing-price': 'value', 'index': 'index', 'not-implemented': 'not-implemented'}
